@@ -70,6 +70,19 @@ func (ex *Exec) fireTimer(st *State, i int) {
 // nowValue produces a fresh symbolic instant, not earlier than the previous one.
 func (ex *Exec) nowValue(st *State) Value {
 	tt := ex.tt
+	if st.concreteClock {
+		// a fixed clock that advances by one millisecond per reading
+		n := st.sideInt("clockticks") + 1
+		st.side["clockticks"] = n
+		var loc Value = PtrVal{}
+		if g := ex.prog.byPath["time"].Var("localLoc"); g != nil {
+			loc = PtrVal{Obj: ex.prog.globalID(g)}
+		}
+		const unixToInternal = (1969*365 + 1969/4 - 1969/100 + 1969/400) * 86400
+		sec := uint64(1700000000 + n/1000)
+		nsec := uint64(n%1000) * 1000000
+		return StructVal{C(64, nsec), C(64, sec+unixToInternal), loc}
+	}
 	sec := ex.tt.Var(st.freshName("now.sec"), 64)
 	nsec := ex.tt.Var(st.freshName("now.nsec"), 64)
 	st.inputs = append(st.inputs, InputRec{Name: "now", Kind: "Time", W: 64, Vars: []*Term{sec, nsec}})
@@ -237,11 +250,41 @@ func init() {
 	})
 
 	// ----- Cond -----
+	// Cond: Wait = unlock L, block until the generation counter moves (Signal/Broadcast), lock L again.
+	// Spurious wake-ups are legal in Go's contract (callers loop), Signal is modelled as Broadcast.
 	reg("(*sync.Cond).Wait", func(ex *Exec, st *State, fr *Frame, args []Value) (Value, ctlT) {
-		unsup("sync.Cond.Wait")
+		p := args[0].(PtrVal)
+		ct := ex.prog.byPath["sync"].Type("Cond").Type()
+		l := st.load(p.Field(fieldIndex(ct, "L"))).(IfaceVal)
+		mk := l.V.(PtrVal).Key()
+		wk := fmt.Sprintf("condwait:%s:%d", p.Key(), st.cur)
+		gen := st.sideInt("cond:" + p.Key())
+		saved, waiting := st.side[wk]
+		if !waiting {
+			if st.sideInt("mu:"+mk) == 0 {
+				st.fail = &Failure{Kind: "panic", ID: "cond-wait-unlocked", Msg: "sync: Cond.Wait with unlocked L"}
+				st.done = true
+				return nil, ctlEnd
+			}
+			delete(st.side, "mu:"+mk)
+			delete(st.lockset, mk)
+			st.side[wk] = gen
+			return nil, ctlBlk
+		}
+		if saved.(int) == gen {
+			return nil, ctlBlk // nobody signalled yet
+		}
+		if st.sideInt("mu:"+mk) != 0 || st.sideInt("rmu:"+mk) != 0 {
+			return nil, ctlBlk // signalled, waiting for the lock
+		}
+		st.side["mu:"+mk] = 1
+		st.lockset[mk] = true
+		delete(st.side, wk)
 		return nil, ctlRet
 	})
 	regAll([]string{"(*sync.Cond).Signal", "(*sync.Cond).Broadcast"}, func(ex *Exec, st *State, fr *Frame, args []Value) (Value, ctlT) {
+		k := "cond:" + ptrKey(args[0])
+		st.side[k] = st.sideInt(k) + 1
 		return nil, ctlRet
 	})
 
@@ -708,4 +751,14 @@ func (ex *Exec) sprintfSymbolic(st *State, format string, va SliceVal) (StrVal, 
 		}
 	}
 	return mkStr(out), true
+}
+
+func (ex *Exec) fireOldestTimer(st *State) bool {
+	for i, t := range st.timers() {
+		if t.active {
+			ex.fireTimer(st, i)
+			return true
+		}
+	}
+	return false
 }
